@@ -421,9 +421,15 @@ func runC15(args []string) int {
 		maxLens = []int{1, 56, 65, 121}
 	}
 	for _, maxLen := range maxLens {
+		// minimal lengths at the residues that decide whether the padding spills into another block
 		mins := []int{0, maxLen / 2, maxLen}
 		if !o.Thorough() {
 			mins = []int{0, maxLen / 2}
+		}
+		for _, m := range []int{55, 56, 63, 64, 119, 120} {
+			if m <= maxLen {
+				mins = append(mins, m)
+			}
 		}
 		for _, min := range mins {
 			for n := min; n <= maxLen; n++ {
